@@ -267,6 +267,20 @@ func (cfg *ChainCfg) chains1(v ssa.Value, depth int, busy map[ssa.Value]bool, bi
 						return cfg.chains(fwd[0], depth, busy, bind)
 					}
 				}
+				// a struct value handed over by a helper (spilled into a local): what its literal's field was given
+				if _, isLocal := fa.X.(*ssa.Alloc); isLocal {
+					if srcs := cfg.P.DeepSources(x, 3, true); len(srcs) > 0 && !(len(srcs) == 1 && srcs[0] == ssa.Value(x)) {
+						var out []Chain
+						for _, src := range srcs {
+							if src != ssa.Value(x) {
+								out = append(out, cfg.chains(src, depth, busy, bind)...)
+							}
+						}
+						if len(out) > 0 {
+							return dedupChains(out)
+						}
+					}
+				}
 				return []Chain{{Leaf{"field", TypeField(fa), Prov(AccessPath(fa.X).Base)}}}
 			}
 			if g, ok := x.X.(*ssa.Global); ok {
@@ -274,6 +288,19 @@ func (cfg *ChainCfg) chains1(v ssa.Value, depth int, busy map[ssa.Value]bool, bi
 			}
 		}
 	case *ssa.Field:
+		// a field of a struct value handed over by a helper: what the literal's field was given
+		if srcs := cfg.P.DeepSources(x, 3, true); len(srcs) > 0 && !(len(srcs) == 1 && srcs[0] == ssa.Value(x)) {
+			var out []Chain
+			for _, src := range srcs {
+				if src == ssa.Value(x) {
+					continue
+				}
+				out = append(out, cfg.chains(src, depth, busy, bind)...)
+			}
+			if len(out) > 0 {
+				return dedupChains(out)
+			}
+		}
 		st := Deref(x.X.Type())
 		name := types.TypeString(st, func(*types.Package) string { return "" })
 		return []Chain{{Leaf{"field", name + "." + fieldName(x.X.Type(), x.Field), Prov(x.X)}}}
@@ -461,6 +488,29 @@ func (p *Prog) DeepFieldProv(v ssa.Value) string {
 	}
 	if len(labels) == 0 {
 		return "nil"
+	}
+	return "{" + strings.Join(labels, "|") + "}"
+}
+
+// DeepFieldProvCallers is DeepFieldProv that also follows parameters to the
+// arguments at their call sites.
+func (p *Prog) DeepFieldProvCallers(v ssa.Value) string {
+	srcs := p.DeepSources(v, 3, true)
+	if len(srcs) == 0 {
+		return FieldProv(v)
+	}
+	seen := map[string]bool{}
+	var labels []string
+	for _, s := range srcs {
+		l := FieldProv(s)
+		if !seen[l] {
+			seen[l] = true
+			labels = append(labels, l)
+		}
+	}
+	sort.Strings(labels)
+	if len(labels) == 1 {
+		return labels[0]
 	}
 	return "{" + strings.Join(labels, "|") + "}"
 }
